@@ -76,7 +76,13 @@ func TestVersionGrid(t *testing.T) {
 	for i := uint64(0); i <= 12; i++ {
 		vals = append(vals, i)
 	}
-	vals = append(vals, 13, 63, 64, 255, 256, 65535, 65536, 1<<31-1, 1<<31, 1<<32-1, 1<<32, 1<<32+5, 1<<32+7, 1<<63-1, 1<<63, math.MaxUint64-1, math.MaxUint64)
+	vals = append(vals, 13, 63, 64, 1<<32+5, 1<<32+7)
+	vals = append(vals, orderingThresholds...)
+	for _, k := range []uint{8, 16, 32, 63} {
+		for _, d := range []uint64{4, 5, 6, 7} {
+			vals = append(vals, 1<<k+d) // a value that truncates to 5 or 7 (or a neighbour) at that width
+		}
+	}
 	for _, ma := range vals {
 		for _, mi := range vals {
 			if !checkPair(t, ma, mi) {
@@ -84,7 +90,15 @@ func TestVersionGrid(t *testing.T) {
 			}
 		}
 	}
-	harness.Exhaustive("(major, minor) in {0..13, 63, 64, 255, 256, 65535, 65536, 2^31-1, 2^31, 2^32-1, 2^32, 2^32+5, 2^32+7, 2^63-1, 2^63, 2^64-2, 2^64-1}^2")
+	// every minor up to 300 for the small majors (packed or decimal-string comparisons carry at 10, 100, 256)
+	for ma := uint64(0); ma <= 13; ma++ {
+		for mi := uint64(13); mi <= 300; mi++ {
+			if !checkPair(t, ma, mi) {
+				return
+			}
+		}
+	}
+	harness.Exhaustive("(major, minor) in V x V with V = {0..13, 63, 64, decimal and binary thresholds up to 2^64-1, 2^k+{4..7} for k = 8, 16, 32, 63}, plus majors 0..13 x minors 0..300")
 }
 
 // TestDefaultVersion: an omitted version means 7.4, on inputs that tell 7.4 from 7.2 and from 5.6.
@@ -240,14 +254,31 @@ func refParse(s string) (uint64, uint64, bool) {
 	return a, b, ok1 && ok2
 }
 
+// orderingThresholds: magnitudes at which packed / string-based / narrowed comparisons go wrong.
+var orderingThresholds = []uint64{9, 10, 11, 19, 20, 99, 100, 101, 127, 128, 255, 256, 999, 1000, 1001, 9999, 10000, 10001, 32767, 32768, 65535, 65536, 99999, 100000,
+	999999, 1000000, 1<<31 - 1, 1 << 31, 1<<32 - 1, 1 << 32, 1<<53 - 1, 1 << 53, 1<<63 - 1, 1 << 63, math.MaxUint64 - 1, math.MaxUint64}
+
 // TestOrdering: Compare/Less/.../InRange agree with numeric tuple order.
 func TestOrdering(t *testing.T) {
 	harness.Check(t, "ordering", 20000, 400000, func(rt *rapid.T) {
-		gen := rapid.OneOf(rapid.Uint64Range(0, 9), rapid.Uint64(), rapid.SampledFrom([]uint64{0, 1, 1<<32 - 1, 1 << 32, 1<<63 - 1, 1 << 63, math.MaxUint64}))
+		gen := rapid.OneOf(rapid.Uint64Range(0, 9), rapid.Uint64Range(0, 12), rapid.Uint64(), rapid.SampledFrom(orderingThresholds),
+			rapid.Uint64Range(0, 70000), rapid.SampledFrom([]uint64{0, 1, 1<<32 - 1, 1 << 32, 1<<63 - 1, 1 << 63, math.MaxUint64}))
 		mk := func(l string) *version.Version {
 			return &version.Version{Major: gen.Draw(rt, l+"major"), Minor: gen.Draw(rt, l+"minor")}
 		}
 		a, b, c := mk("a"), mk("b"), mk("c")
+		// neighbours: equal pairs, same major with adjacent minors, adjacent majors with a carry-sized minor
+		switch rapid.IntRange(0, 7).Draw(rt, "relation") {
+		case 0:
+			b = &version.Version{Major: a.Major, Minor: a.Minor}
+		case 1:
+			b = &version.Version{Major: a.Major, Minor: a.Minor + 1}
+		case 2:
+			b = &version.Version{Major: a.Major + 1, Minor: 0}
+			a.Minor = rapid.SampledFrom(orderingThresholds).Draw(rt, "carry")
+		case 3:
+			c = &version.Version{Major: b.Major, Minor: b.Minor} // InRange with start == end
+		}
 		harness.Eval()
 		ref := func(x, y *version.Version) int {
 			switch {
